@@ -31,7 +31,7 @@ type tmsg struct {
 func (m tmsg) frame() []byte {
 	h := ref.TermHeader(m.ID, m.V2019, m.Phone, m.Serial)
 	body := ref.SampleBody(m.ID, m.V2019, m.Phone, m.Variant)
-	if m.Body != "" || m.Total > 0 {
+	if m.Body != "" {
 		body = unhx(m.Body)
 	}
 	if m.Total > 0 {
@@ -466,6 +466,12 @@ func c06Alphabet(full bool) []tmsg {
 		out = append(out, tmsg{ID: 0x0102, V2019: v, Phone: phones[0], Serial: 9, Variant: 1})
 		out = append(out, tmsg{ID: 0x0801, V2019: v, Phone: phones[0], Serial: 10, Variant: 1})
 	}
+	// sub-packaged messages: a transfer of ONE package (complete at once: one message, one reply) and the two packages
+	// of a two-package transfer (one reply, when complete)
+	for _, v := range []bool{false, true} {
+		out = append(out, tmsg{ID: 0x0200, V2019: v, Phone: phones[0], Serial: 12, Total: 1, Number: 1})
+		out = append(out, tmsg{ID: 0x0100, V2019: v, Phone: phones[0], Serial: 13, Total: 1, Number: 1})
+	}
 	// 2019 0x0102 too short for its fixed fields: silent by design
 	out = append(out, tmsg{ID: 0x0102, V2019: true, Phone: phones[0], Serial: 11, Body: "0501"})
 	return out
@@ -476,7 +482,7 @@ func init() {
 		ID:         "C06",
 		Level:      "model_checking",
 		SingleProc: true,
-		Rule: "real server (service.New+Run over the virtual listener) with recording handlers; (a) every sequence of 1..2 terminal messages (thorough 3 on a reduced alphabet) from {17 default IDs + 2 unsupported} x {2013,2019} x serials {0,1,65535} x 2 phones (+ wrong auth code, 0x0801 with escape-byte media ID, too-short 2019 0x0102), each on a fresh connection under the run-to-block schedule, one frame per read and all coalesced; " +
+		Rule: "real server (service.New+Run over the virtual listener) with recording handlers; (a) every sequence of 1..2 terminal messages (thorough 3 on a reduced alphabet) from {17 default IDs + 2 unsupported} x {2013,2019} x serials {0,1,65535} x 2 phones (+ wrong auth code, 0x0801 with escape-byte media ID, too-short 2019 0x0102, sub-packaged 0x0200 / 0x0100 with a package total of 1 (packet bodies are non-empty: an empty packet body is outside C05 and C06)), each on a fresh connection under the run-to-block schedule, one frame per read and all coalesced; " +
 			"(b) one connection carried through 65540 heartbeats (serial wrap); (c) representative histories on one and two concurrent connections under ALL schedules within the deviation bound (2 quick, 3 thorough); (d) EVERY thread interleaving (no preemption bound) of the same histories with the default environment answers, using a cache of happens-before state keys validated per run by a self-test and by harness digests (the flag exhaustive refers to (a)-(c); counters unbounded_*: scenarios closed / stopped at the state limit of 40000 quick, 1000000 thorough). " +
 			"states = distinct happens-before state keys, transitions = scheduler steps. Non-trivial = history of >=2 messages or schedule with >=1 deviation",
 		Assumptions: []string{"reply table harness/ref/reply.go written from JT/T 808 and the property text", "socket model vnet: byte stream, segmentation chosen by the harness",
